@@ -297,6 +297,9 @@ class TrackWorld(World):
         if k < 0.5:
             return [self._uval() for _ in range(n)]
         if k < 0.58:
+            if r.random() < 0.3:
+                # a text that happens to spell the name of a feature or of a coordinate (a label "x", "speed")
+                return r.choice(["x", "y", "idx", "speed", "a", "b", "t"])
             return "v%d" % int(self._uval())        # text-valued features are legal (the CSV reader stores them)
         return self._uval()
 
